@@ -40,7 +40,8 @@ Record cfg := mkCfg {
   c_maxconc : nat;       (* V2 MaxConcurrentBatches; 0 = no limit *)
   c_watchers : list wcfg;
   c_busy_fd : Z;         (* a listener keeps the loop busy for this long inside the flush-done event (v2), ns; <= 0: not *)
-  c_busy_audit : Z       (* ... inside the audit-skip / audit-pass / audit-fail event *)
+  c_busy_audit : Z;      (* ... inside the audit-skip / audit-pass / audit-fail event *)
+  c_busy_cap : Z         (* the rate limiter's GiveMe takes this long to return *)
 }.
 
 Definition ms : Z := 1000000.
@@ -583,7 +584,7 @@ Definition do_audit_confirm (c : cfg) (s : state) : option (state * list obs) :=
 Definition do_loop_cap (c : cfg) (s : state) : option (state * list obs) :=
   if loop_idle s && t_pending (tk_cap s) then
     let s1 := s <| tk_cap := mkT (t_next (tk_cap s)) false |> in
-    if c_limiter c then Some (s1, [OEvRequest (target s); OGiveMe (target s)])
+    if c_limiter c then Some (s1 <| loop := after_event s (c_busy_cap c) |>, [OEvRequest (target s); OGiveMe (target s)])
     else Some (s1, [])
   else None.
 
